@@ -1135,6 +1135,31 @@ def sm_check(ctx, pid):
                 ntriv += 1
     ctx.obligation("corr:every generated machine could be built and driven", not impl_fail, repr(impl_fail[:3]))
     bad = correspondence(ctx, cases, label=pid.lower())
+    if bad and len(bad) <= 25:
+        # a disagreement must show again when the implementation is driven once more on the same case (a glitch of the
+        # harness itself on a loaded machine -- an operation that hit the time limit -- is not a disagreement)
+        again = []
+        for i in bad:
+            c = cases[i][0]
+            try:
+                o2, sa2 = run_impl(c, tag=pid + "r")
+                again.append((i, (c, o2, sa2)))
+            except Exception:      # noqa
+                again.append((i, cases[i]))
+        n_before = len(ctx.obligations)
+        bad2 = correspondence(ctx, [x for _, x in again], label=pid.lower() + "_again")
+        still = [again[j][0] for j in bad2]
+        if not still:
+            # every one of them agrees on the second run: withdraw the broken shard obligations of the first pass
+            del ctx.obligations[n_before:]
+            ctx.obligations[:] = [(nm, True if (nm.startswith("corr:cases_%s_" % pid.lower()) and not ok_) else ok_, d_)
+                                  for (nm, ok_, d_) in ctx.obligations]
+            ctx.count("disagreements-withdrawn-on-a-second-run", len(bad))
+            for i, x in again:
+                cases[i] = x
+            bad = []
+        else:
+            bad = still
     ctx.coverage.update({
         "evaluations": len(cases),
         "traces_validated_against_impl": len(cases),
@@ -1148,19 +1173,31 @@ def sm_check(ctx, pid):
         "exhaustive": False,
     })
 
+    def confirmed(c):
+        """shrink and re-run: a candidate is kept only if the violation shows again on a fresh run"""
+        rec = violation_record(shrink(c, pid), pid)
+        if rec["what"] != "?":
+            return rec
+        rec = violation_record(c, pid)
+        return rec if rec["what"] != "?" else None
+
     def search():
         found = []
         # 1. the disagreeing cases themselves
         for i in bad[:200]:
             c, o, _ = cases[i]
             if any(p == pid for p, _ in oracle(c, o)):
-                found.append(violation_record(shrink(c, pid), pid))
-                return found
+                rec = confirmed(c)
+                if rec:
+                    found.append(rec)
+                    return found
         # 2. everything this run generated, then a larger batch
         for c, o, _ in cases:
             if any(p == pid for p, _ in oracle(c, o)):
-                found.append(violation_record(shrink(c, pid), pid))
-                return found
+                rec = confirmed(c)
+                if rec:
+                    found.append(rec)
+                    return found
         import time
         t0 = time.time()
         extra = 0
@@ -1172,8 +1209,10 @@ def sm_check(ctx, pid):
             except Exception:
                 continue
             if any(p == pid for p, _ in oracle(c, o)):
-                found.append(violation_record(shrink(c, pid), pid))
-                return found
+                rec = confirmed(c)
+                if rec:
+                    found.append(rec)
+                    return found
         ctx.coverage["search_extra_cases"] = extra
         if bad:
             c, o, sa = cases[bad[0]]
